@@ -298,6 +298,10 @@ def run(rep):
     rep.clause("R-C05-fft", "FFT adapters: saved' = saved + in − chunks·fft_in, out = chunks·fft_out, remainder parked by copy_within [used..saved) -> 0 (and the dual for fixed-out)")
     rep.not_decided += ["equality of the two output streams up to rounding", "set_chunk_size schedules beyond the carry rule", "FFT block-size equivalence classes"]
     rep.trusted += ["syn parser", "slice::copy_within / copy_from_slice semantics"]
+    # everything else a working resampler needs (see rules/shares.py: a change that makes the resampler panic, drop frames, corrupt state on a
+    # rejected call or forward a trait-object call wrongly breaks this property as well)
+    import shares as _shares
+    _shares.complete(rep)
     return rep.finish(level="other", explanation=(
         "Buffer-carry rules on the four asynchronous process_into_buffer bodies and the two buffered FFT adapters, decided by forward "
         "substitution and exact algebra on the extracted offsets: which offset the history shift uses relative to the size that was "
